@@ -416,6 +416,7 @@ func TestRegress(t *testing.T)     { run.Regress(t, spec) }
 func TestReplay(t *testing.T) {
 	run.ReplayOne(t, spec)
 	run.ReplayOne(t, bigSpec)
+	run.ReplayOne(t, manySpec)
 }
 
 func evMax(name string, v float64) { ev.Default.MaxOf(name, v) }
